@@ -117,13 +117,34 @@ func TestVerifC06Edns(t *testing.T) {
 	clients := []netip.AddrPort{netip.MustParseAddrPort("192.0.2.7:5353"), netip.MustParseAddrPort("[2001:db8::7]:5353"), netip.MustParseAddrPort("203.0.113.9:4000")}
 	protos := []string{"udp", "tcp", "doh"}
 
-	for c := 0; c < n; c++ {
-		gq := vC06GenQuery(r)
-		sc := vC06GenScript(r)
-		tr := []int{vC06UDP, vC06UDP, vC06UDP, vC06TCP, vC06TCP, vC06DOH}[r.Intn(6)]
-		ci := r.Intn(4)
-		client := clients[[]int{0, 0, 1, 1, 2}[r.Intn(5)]]
-		strictTry := r.Intn(2) == 0
+	corpus := vC06CorpusFile("steps_edns.json")
+	var prev *vC06Step
+	for c := 0; c < len(corpus)+n; c++ {
+		var gq *vC06Q
+		var sc *vC06Script
+		var tr, ci, cli int
+		var strictTry bool
+		tune, tuneOff := false, 0
+		fromCorpus := c < len(corpus)
+		if fromCorpus {
+			st := corpus[c]
+			b, err := hex.DecodeString(st.QueryHex)
+			if err != nil || st.Tr < 0 || st.Tr > vC06DOH || st.Cfg < 0 || st.Cfg > 3 || st.Client < 0 || st.Client > 2 {
+				t.Fatalf("corpus step %d is malformed", c)
+			}
+			gq, sc, tr, ci, cli, strictTry = &vC06Q{raw: b}, st.script(), st.Tr, st.Cfg, st.Client, st.Strict
+		} else {
+			gq = vC06GenQuery(r)
+			sc = vC06GenScript(r)
+			tr = []int{vC06UDP, vC06UDP, vC06UDP, vC06TCP, vC06TCP, vC06DOH}[r.Intn(6)]
+			ci = r.Intn(4)
+			cli = []int{0, 0, 1, 1, 2}[r.Intn(5)]
+			strictTry = r.Intn(2) == 0
+			if tr == vC06UDP && r.Intn(3) == 0 {
+				tune, tuneOff = true, r.Intn(3)-1
+			}
+		}
+		client := clients[cli]
 		raw := gq.raw
 		body := new(dns.Msg)
 		if body.Unpack(raw) != nil || len(body.Question) != 1 || body.Response {
@@ -141,8 +162,8 @@ func TestVerifC06Edns(t *testing.T) {
 			}
 			return m.Len()
 		}
-		if tr == vC06UDP && sc.write && r.Intn(3) == 0 {
-			target := vC06Limit(body) + r.Intn(3) - 1
+		if tune && sc.write {
+			target := vC06Limit(body) + tuneOff
 			if sc.fill == 0 {
 				sc.fill = 10
 			}
@@ -158,6 +179,7 @@ func TestVerifC06Edns(t *testing.T) {
 				sc.fill = nf
 			}
 		}
+		step := vC06MkStep(tr, ci, cli, 0, strictTry, raw, sc)
 		tab := vC06NewTab()
 		qCoq := tab.absMsg(body, nil)
 		sc.tab = tab
@@ -219,8 +241,12 @@ func TestVerifC06Edns(t *testing.T) {
 		}
 		cfgCoq := fmt.Sprintf("(mk_cfg %s %s %s)", nsidCoq, cookieCoq, ecsCoq)
 		coq := fmt.Sprintf("CaseChain %s %s %s (%s) %s %s %d %s %d %d %d", vC06TrName[tr], cfgCoq, tab.table(), qCoq, vC06B(strict), dnCoq, clen, obsCoq, len(reply), oulen, oclen)
+		coq = fmt.Sprintf("CaseBytes [] %s (%s)", vC06Octets(vC06OptTail(obs, reply)), coq)
 
 		k := "chain-" + strings.ToLower(vC06TrName[tr]) + "-"
+		if fromCorpus {
+			k = "corpus-" + k
+		}
 		switch {
 		case obs == nil:
 			k += "nowrite"
@@ -258,8 +284,9 @@ func TestVerifC06Edns(t *testing.T) {
 		rec := map[string]any{
 			"k": k, "coq": coq, "nontrivial": nontrivial,
 			"desc": map[string]any{"transport": protos[tr], "cfg": ci, "client": client.String(), "query_hex": hex.EncodeToString(raw),
-				"wire_born": strict, "downstream": dn, "reply_hex": hex.EncodeToString(reply), "clen_oracle": clen},
+				"wire_born": strict, "downstream": dn, "reply_hex": hex.EncodeToString(reply), "clen_oracle": clen, "step": step, "prev_step": prev},
 		}
+		prev = step
 		if goFail == "" && tab.bad != "" {
 			goFail = "driver cannot abstract a record: " + tab.bad
 		}
